@@ -1,4 +1,4 @@
-"""C02 -- occurrence finding is exact (structural clauses R02.1-R02.25)."""
+"""C02 -- occurrence finding is exact (structural clauses R02.1-R02.26)."""
 from __future__ import annotations
 
 import ast
@@ -37,6 +37,8 @@ EXPLANATION += ' R02.22: line/column pairs (see R01.17).'
 EXPLANATION += " R02.19: identifier characters are the interpreter's.  R02.20 (=R15.17): walrus targets in comprehensions.  R02.21: header expressions of def / class are evaluated in the parent scope."
 EXPLANATION += ' R02.18: a `col_offset`/`end_col_offset` of an AST node (UTF-8 bytes) reaches a character offset only through codeanalyze.column_to_offset; it is otherwise only compared, or is the start column of a node tested to be a statement.'
 EXPLANATION += " R02.25 (=R13.8): a failed module lookup is remembered nowhere (cell or attribute): an import evaluated before its module existed resolves once the module is there."
+EXPLANATION += " R02.26 (=R15.16): the comprehension scope seeds its table from what its parent propagates to nested scopes, never from all names of the parent (class attributes are invisible in the element and the conditions)."
+EXPLANATION += " R02.27 (=R14.21): the string alternatives of the occurrence pattern take a letter for a string prefix only at a word start (the f of `if\"{x}\"` is none)."
 ASSUMPTIONS = ["re alternation is ordered (leftmost position, first alternative wins)",
                "the name searched for is a plain identifier (symbolic NAME in the folded pattern)"]
 
@@ -91,6 +93,9 @@ class _Swap(ast.NodeTransformer):
 
 def check(ctx, res) -> None:
     _check_main(ctx, res)
+    from .c14 import prefix_word_start_rule
+
+    prefix_word_start_rule(ctx, res, "R02.27")
     from .common import merge_precedence_rule, module_search_order_rule
 
     merge_precedence_rule(ctx, res, "R02.7")
@@ -126,6 +131,9 @@ def check(ctx, res) -> None:
     from .c13 import no_negative_cache_rule
 
     no_negative_cache_rule(ctx, res, "R02.25")
+    from .c15 import comprehension_sees_parent_rule
+
+    comprehension_sees_parent_rule(ctx, res, "R02.26")
     from .common import position_pair_rule
 
     position_pair_rule(ctx, res, "R02.22", ("rope.refactor.occurrences", "rope.refactor.functionutils", "rope.base.evaluate", "rope.refactor.patchedast", "rope.base.codeanalyze"))
